@@ -778,6 +778,7 @@ impl World {
     /// Consistency sweep after every director action (nothing is mid-update at
     /// task level between two actions).
     pub fn sweep(&mut self) {
+        let closed = self.closed;
         let mut msgs: Vec<(&'static [&'static str], &'static str, String)> = Vec::new();
         for (id, o) in self.objs.iter_mut().enumerate() {
             match o.state {
@@ -800,8 +801,10 @@ impl World {
                 ObjState::Gone if !o.checked_gone => {
                     o.checked_gone = true;
                     if o.need_detach && o.detach != 1 {
+                        // "discarded" (C06: objects held by or returned to a closed pool) means dropped *and* detached
+                        let props: &'static [&'static str] = if closed { &["C09", "C03", "C04", "C06"] } else { &["C09", "C03", "C04"] };
                         msgs.push((
-                            &["C09", "C03", "C04"],
+                            props,
                             "detach_count",
                             format!("obj{} was let go by the pool but Manager::detach was called {} times", id, o.detach),
                         ));
